@@ -64,8 +64,14 @@ def pyEval (ρ : Nat → Int) : Expr → Option Int
         | .and => some (pyBitwise (· &&& ·) a b)
         | .or => some (pyBitwise (· ||| ·) a b)
         | .xor => some (pyBitwise (· ^^^ ·) a b)
-        | .sll => if b < 0 then none else some (a * 2 ^ b.toNat)
-        | .srl => if b < 0 then none else some (Int.fdiv a (2 ^ b.toNat))
+        -- Python ints: a shift count beyond 2^16 is not materialised — `x >> n` is 0 or -1 once `n`
+        -- exceeds the length of `x` (no power is formed), `x << n` with `x != 0` raises
+        | .sll => if b < 0 then none
+                  else if b.toNat > 65536 then (if a = 0 then some 0 else none)
+                  else some (a * 2 ^ b.toNat)
+        | .srl => if b < 0 then none
+                  else if b.toNat > Nat.log2 a.natAbs + 1 then some (if a < 0 then -1 else 0)
+                  else some (Int.fdiv a (2 ^ b.toNat))
       | _, _ => none
   | .psel e hi lo =>
       match pyEval ρ e with
